@@ -37,10 +37,11 @@ print("NEW:", *new, sep="\n  ")
 print("CHANGED (existing shared files!):", *changed, sep="\n  ")
 print("MANUAL:", *manual, sep="\n  ")
 if apply:
-    for rel in new + changed:
+    todo = new + (changed if "--apply-changed" in sys.argv else [r for r in changed if pid in os.path.basename(r)])
+    for rel in todo:
         os.makedirs(os.path.dirname(os.path.join(dst, rel)), exist_ok=True)
         shutil.copy2(os.path.join(src, rel), os.path.join(dst, rel))
-    print("copied", len(new) + len(changed), "files")
+    print("copied", len(todo), "files")
 for rel in manual:
     if rel in ("lean/Main.lean", "lean/Cfdm.lean", "known_findings.json", "tools/manifest_table.py", "harness/fw.py", "check"):
         print(f"---- diff {rel}")
